@@ -223,10 +223,10 @@ pub fn discover_tys(
         OwnedDataModelType::U64 => {}
         OwnedDataModelType::U128 => {}
 
-        // TODO: usize and isize don't impl Schema, which, fair.
-        OwnedDataModelType::Usize => unreachable!(),
-        OwnedDataModelType::Isize => unreachable!(),
-        //
+        // usize and isize don't impl Schema, but they can appear in hand-built
+        // schemas and in schemas received from a peer: they are leaves.
+        OwnedDataModelType::Usize => {}
+        OwnedDataModelType::Isize => {}
         OwnedDataModelType::F32 => {}
         OwnedDataModelType::F64 => {}
         OwnedDataModelType::Char => {}
@@ -256,6 +256,6 @@ pub fn discover_tys(
                 discover_tys_data(&variant.data, set);
             }
         }
-        OwnedDataModelType::Schema => todo!(),
+        OwnedDataModelType::Schema => {}
     };
 }
